@@ -296,3 +296,4 @@ Proof.
     destruct (builds_node c'); [|discriminate]. intro H. injection H as ->.
     destruct (alleged_prefix_never_upgrades_ok di s c) as (_ & A & _). destruct (A F). split; assumption.
 Qed.
+
